@@ -7,6 +7,8 @@
   and every interpolant `I` (an oracle).
 -/
 import Proofs.Lemmas.ExtremaEnv
+import Proofs.Lemmas.ExtremaPad0
+import Proofs.Lemmas.ExtremaRounds
 
 namespace C05
 open Extrema
@@ -142,6 +144,49 @@ theorem paddedExtrema_structure (w : Nat) (m : Mode) (parab : Bool) (x : Sig) (l
       simp [hL, hR] at this; omega
     · omega
 
+/-- MINIMALITY AND COUNT of the re-padding (pad width ≥ 1).  Let `w' = min w #extrema` be the effective
+    width.  The returned locations / magnitudes are the `(r+1)`-fold odd-reflection / edge padding of
+    the detected extrema, where `r+1 ≥ 1` is the LEAST number of rounds after which the loop condition
+    `max(locs) < len(X) or min(locs) >= 0` is false: it is false after round `r+1` and true after
+    every earlier round `1 … r` — so a round more (or less) than needed is impossible.  Exactly
+    `(r+1)·w'` values are added on either side of the unchanged block, and `r ≤ len(X)`. -/
+theorem paddedExtrema_rounds (w : Nat) (hw : 1 ≤ w) (m : Mode) (parab : Bool) (x : Sig) (locs mags : List Rat)
+    (h : paddedExtrema w m parab x = .ok locs mags) :
+    ∃ r : Nat,
+      locs = (padOdd (min w (extrema m parab x).1.length))^[r + 1] (extrema m parab x).1 ∧
+      mags = (padEdge (min w (extrema m parab x).1.length))^[r + 1] (extrema m parab x).2 ∧
+      needsMore x.length locs = false ∧
+      (∀ j, j < r → needsMore x.length ((padOdd (min w (extrema m parab x).1.length))^[j + 1] (extrema m parab x).1) = true) ∧
+      r ≤ x.length ∧
+      ∃ L Rr, locs = L ++ (extrema m parab x).1 ++ Rr ∧
+        L.length = (r + 1) * min w (extrema m parab x).1.length ∧
+        Rr.length = (r + 1) * min w (extrema m parab x).1.length :=
+  paddedExtrema_rounds' w hw m parab x locs mags h
+
+/-- The loop condition in geometric terms: it is false exactly when the first location is negative
+    and the last is at least `len(X)` (for the strictly ordered locations `lmin`/`lmax` are the ends). -/
+theorem needsMore_false_iff_covered (n : Nat) (l : List Rat) :
+    needsMore n l = false ↔ lmin l < 0 ∧ (n : Rat) ≤ lmax l := needsMore_false_iff n l
+
+/-- With a pad width ≥ 1 the interpolant gets at least four knots (what `splrep` with k = 3 needs):
+    two extrema plus at least one padded value on either side. -/
+theorem paddedExtrema_min_knots (w : Nat) (hw : 1 ≤ w) (m : Mode) (parab : Bool) (x : Sig) (locs mags : List Rat)
+    (h : paddedExtrema w m parab x = .ok locs mags) : 4 ≤ locs.length ∧ 4 ≤ mags.length := by
+  obtain ⟨hl2, _⟩ := paddedExtrema_ok w m parab x locs mags h
+  obtain ⟨r, _, _, _, _, _, L, Rr, heq, hL, hR⟩ := paddedExtrema_rounds w hw m parab x locs mags h
+  have hlen := paddedExtrema_lengths w m parab x locs mags h
+  have h1 : 1 ≤ min w (extrema m parab x).1.length := by omega
+  have h2 : 1 ≤ (r + 1) * min w (extrema m parab x).1.length := Nat.mul_pos (by omega) h1
+  have : 4 ≤ locs.length := by rw [heq]; simp only [List.length_append]; omega
+  exact ⟨this, by omega⟩
+
+/-- Pad width 0 (inside the property's quantifier): nothing is added — `get_padded_extrema` returns
+    the detected extrema themselves (`None` below two extrema). -/
+theorem paddedExtrema_pad0 (m : Mode) (parab : Bool) (x : Sig) :
+    paddedExtrema 0 m parab x =
+      if (extrema m parab x).1.length ≤ 1 then .none else .ok (extrema m parab x).1 (extrema m parab x).2 :=
+  paddedExtrema_zero m parab x
+
 /-- With a pad width ≥ 1 the padded locations reach beyond both ends of the signal:
     the first is negative and the last is at least `n`. -/
 theorem paddedExtrema_covers (w : Nat) (hw : 1 ≤ w) (m : Mode) (parab : Bool) (x : Sig) (locs mags : List Rat)
@@ -206,6 +251,25 @@ theorem interpEnvelope_never_raises (I : Interp) (em : EMode) (w : Nat) (hw : 1 
   | ok l e =>
     have hg := paddedExtrema_grid w hw em.toMode parab x l e hp
     simp [hg]
+
+/-- PAD WIDTH 0 IS REJECTED.  Without padding the extrema lie strictly inside the signal, the
+    evaluation grid `arange(ceil(locs[0]), locs[-1])` misses sample 0, and `interp_envelope` raises its
+    length error ('Envelope length does not match input data') for EVERY input that has an envelope
+    at all (≥ 2 extrema of the requested kind), every mode, refinement flag and interpolant; below two
+    extrema it returns None as for any other width.  So `pad_width = 0` never yields an envelope: the
+    one-value-per-sample clause holds there only in the form "rejected input".  (The real code agrees:
+    ValueError; with `splrep` and fewer than 4 extrema scipy raises its own TypeError 'm > k must hold'
+    first — a rejection either way, special-cased by the harness.)  This is why every theorem about the
+    composed pipeline (`Sift.extEnv`, which maps a raising envelope to "no envelope") carries `1 ≤ w`. -/
+theorem interpEnvelope_pad0_raises (I : Interp) (em : EMode) (parab : Bool) (x : Sig) :
+    (2 ≤ (findPeaks (modeSig em.toMode x)).length → interpEnvelope I em 0 parab x = .valueError) ∧
+    ((findPeaks (modeSig em.toMode x)).length < 2 → interpEnvelope I em 0 parab x = .none) := by
+  have hlen : (extrema em.toMode parab x).1.length = (findPeaks (modeSig em.toMode x)).length := by
+    rw [extrema_locs]; exact (rawExtrema_length parab _).1
+  rw [interpEnvelope_zero, hlen]
+  constructor
+  · intro h; rw [if_neg (by omega)]
+  · intro h; rw [if_pos (by omega)]
 
 /-- The envelope value of sample `i` is the interpolant through the padded extrema evaluated at the
     integer time `i` — with or without parabolic refinement, for every interpolant. -/
@@ -306,6 +370,12 @@ example : interpEnvelope knotInterp .lower 1 true [0, -3, -1, -2, -1/2] =
   decide +kernel
 -- pad width 0: the extrema do not span the signal, the implementation raises
 example : interpEnvelope knotInterp .upper 0 false [0, 1, 0, 2, 0, 1, 0] = .valueError := by decide +kernel
+-- … and `get_padded_extrema` itself returns the bare extrema
+example : paddedExtrema 0 .peaks false [0, 1, 0, 2, 0, 1, 0] = .ok [1, 3, 5] [1, 2, 1] := by decide +kernel
+-- `paddedExtrema_rounds` on the three-round example above: r = 2, effective width 1, 3·1 values per side;
+-- after rounds 1 and 2 the loop condition still holds (round 2 ends exactly at location 0: `min >= 0`)
+example : (padOdd 1)^[3] [4, 6] = [-2, 0, 2, 4, 6, 8, 10, 12] ∧ needsMore 8 ((padOdd 1)^[3] [4, 6]) = false ∧
+    needsMore 8 ((padOdd 1)^[1] [4, 6]) = true ∧ needsMore 8 ((padOdd 1)^[2] [4, 6]) = true := by decide +kernel
 
 
 end C05
